@@ -286,6 +286,8 @@ def classify_req(b):
         if bc != 2 * wq or len(b) != 10 + bc:
             return ("reject",)
         return ("accept", ("RWMR", u16(b, 1), u16(b, 3), u16(b, 5), [u16(b, 10 + 2 * i) for i in range(wq)]))
+    if len(b) > 253:
+        return ("unspecified",)   # not a Modbus PDU at all; the statement is silent (see DESIGN.md, C08 notes)
     return ("accept", ("CU", fc, bytes(b[1:])))
 
 
@@ -318,6 +320,8 @@ def classify_rsp(b):
             return ("reject",)
         return ("accept", ("MWR", u16(b, 1), u16(b, 3), u16(b, 5)))
     # function codes the library does not model (incl. >= 0x80 through Response::try_from): raw custom
+    if len(b) > 253:
+        return ("unspecified",)
     return ("accept", ("CU", fc, bytes(b[1:])))
 
 
